@@ -22,6 +22,7 @@ import (
 	"fmt"
 	"hash/maphash"
 	"os"
+	"regexp"
 	"runtime"
 	"sort"
 	"strconv"
@@ -490,6 +491,13 @@ func (c *childState) executeOne(ci int, es *evalState, skipX map[int]bool, res *
 	var ts [2]*transcript
 	cms := [2]wazero.CompiledModule{es.cmI, es.cmC}
 	for e := 0; e < 2; e++ {
+		// an accepted guest may legitimately allocate up to 1 GiB (table.grow): start every execution from
+		// a collected heap so that whether the child survives does not depend on GC timing
+		var ms runtime.MemStats
+		runtime.ReadMemStats(&ms)
+		if ms.HeapAlloc > 128<<20 {
+			runtime.GC()
+		}
 		c.prog.set(ci, es.k, f, phaseExec, e)
 		t0 := time.Now()
 		ts[e] = c.h.execute(e, f, cms[e], dec, in.ArgSets)
@@ -930,9 +938,25 @@ func sigOfEvent(ev event) string {
 	case ev.Phase != phaseExec:
 		return "compile-crash:" + eng + ":" + siteFromTrace(ev.Stderr)
 	case oom:
+		// wazero's own limits let a guest hold a table of 2^27 references (1 GiB, and twice that while it
+		// is being grown); dying on such a request is a consequence of the 3 GiB address-space limit of
+		// this check, not of the runtime. Only a larger single request is a verdict.
+		if n := oomRequest(ev.Stderr); n > 0 && n <= 1<<30+1<<20 {
+			return ""
+		}
 		return "exec-alloc:" + eng + ":" + siteFromTrace(ev.Stderr)
 	}
 	return "exec-fault:" + eng + ":" + faultClass(ev.Stderr)
+}
+
+var reOOM = regexp.MustCompile(`cannot allocate ([0-9]+)-byte block`)
+
+func oomRequest(stderr string) uint64 {
+	if m := reOOM.FindStringSubmatch(stderr); m != nil {
+		n, _ := strconv.ParseUint(m[1], 10, 64)
+		return n
+	}
+	return 0
 }
 
 // faultClass names a process fault during execution by its first diagnostic line (goroutine traces of
